@@ -15,19 +15,24 @@ Import ListNotations.
 (* mapping, shared-list path: for every per-chunk worker `work` (any function of the chunk
    index and its seed), every seed list and any two completion orders s1 s2 that are
    permutations of each other, the final list (after re_order_blob) is the same — provided
-   the gathered records have distinct cell ids (re_order_blob builds a dict) *)
+   the gathered records have distinct cell ids (re_order_blob builds a dict) and every worker of
+   the completion order has a seed (gather_list reads `nth i seeds 0`: in the code a worker
+   without a generator does not exist, so the default 0 must not carry the statement) *)
 Theorem c04_mapping_schedule_independent :
   forall (A : Type) (work : nat -> Z -> list (record A)) (cell_order seeds : list Z) (s1 s2 : list nat),
+  (forall i, In i s1 -> (i < length seeds)%nat) ->
   Permutation s1 s2 -> NoDup (map fst (gather_list A work seeds s1)) ->
   final_list A work cell_order seeds s1 = final_list A work cell_order seeds s2.
 Proof. exact final_list_schedule_independent. Qed.
 Print Assumptions c04_mapping_schedule_independent.
 
 (* mapping, buffer-directory path (the one run_mapping uses): the directory listing is
-   sorted by name, so already the gathered list is independent of the order *)
+   sorted by name, so already the gathered list is independent of the order (every listed file
+   belongs to a worker that has a seed: again the default of `nth _ seeds 0` is excluded) *)
 Theorem c04_mapping_buffer_files_independent :
   forall (A : Type) (work : nat -> Z -> list (record A)) (name : nat -> Z) (chunk_of_name : Z -> nat)
          (cell_order seeds : list Z) (s1 s2 : list nat),
+  (forall i, In i s1 -> (chunk_of_name (name i) < length seeds)%nat) ->
   Permutation s1 s2 ->
   gather_files A work name chunk_of_name seeds s1 = gather_files A work name chunk_of_name seeds s2 /\
   final_files A work name chunk_of_name cell_order seeds s1 = final_files A work name chunk_of_name cell_order seeds s2.
@@ -45,8 +50,8 @@ Print Assumptions c04_final_is_query_order.
    path depends on the completion order (the model says so) *)
 Theorem c04_duplicate_ids_refuted :
   let work := fun (i : nat) (_ : Z) => [(7%Z, Z.of_nat i)] in
-  final_list Z work [7%Z] [] [0; 1]%nat = Some [(7, 1)]%Z /\
-  final_list Z work [7%Z] [] [1; 0]%nat = Some [(7, 0)]%Z.
+  final_list Z work [7%Z] [50; 51]%Z [0; 1]%nat = Some [(7, 1)]%Z /\
+  final_list Z work [7%Z] [50; 51]%Z [1; 0]%nat = Some [(7, 0)]%Z.
 Proof. exact duplicate_ids_order_dependent. Qed.
 Print Assumptions c04_duplicate_ids_refuted.
 
@@ -69,22 +74,64 @@ Theorem c04_seed_of_worker_schedule_independent :
 Proof. exact seed_of_worker. Qed.
 Print Assumptions c04_seed_of_worker_schedule_independent.
 
-(* two worker counts that induce the same effective chunk size give the same mapping,
-   under any two completion orders *)
+(* the mapping stage as a whole (Model/Gather.v mapping_result: chunks derived from n_rows,
+   n_processors and chunk_size as run_type_assignment_on_h5ad_cpu derives them; the dispatch loop
+   run with n_processors as its bound on the world W, drawing one seed per chunk; gather in the
+   order sigma; re_order_blob).  n_processors enters twice -- through the effective chunk size and
+   through the bound of the dispatch loop -- and only the former matters: for worker counts
+   p1 p2 >= 1 that induce the same effective chunk size, ANY two worlds in which the k workers
+   exit with code 0 (any two schedules) and ANY two orders s1 s2 in which the k workers appended
+   their records, the mapping is the same, and it is the one of a sequential run (seed of chunk i
+   = i-th draw, records gathered in chunk order) -- provided the gathered records have distinct
+   cell ids.  (Proof: the verdict of the loop does not depend on the seed stream or the log, clean
+   workers give a clean drain for every bound, the seeds are fixed at dispatch, re_order_blob of a
+   permutation.) *)
 Theorem c04_same_chunks_same_result :
   forall (A S : Type) (draw : S -> Z * S) (work_rows : nat -> nat -> Z -> list (record A))
-         (cell_order : list Z) (s : S) (n p1 p2 c : nat) (s1 s2 : list nat),
+         (cell_order : list Z) (s : S) (n p1 p2 c : nat) (W1 W2 : world) (s1 s2 : list nat),
+  (1 <= p1)%nat -> (1 <= p2)%nat ->
   eff_chunk n p1 c = eff_chunk n p2 c ->
-  Permutation s1 s2 ->
-  NoDup (map fst (gather_list A (chunk_work A work_rows n (eff_chunk n p1 c))
-                              (draws S draw (length (chunks n (eff_chunk n p1 c))) s) s1)) ->
-  mapping_result A S draw work_rows cell_order s n p1 c s1 =
-  mapping_result A S draw work_rows cell_order s n p2 c s2.
+  let cs := eff_chunk n p1 c in
+  let k := length (chunks n cs) in
+  (forall w, (w < k)%nat -> code W1 w = 0%Z) -> (forall w, (w < k)%nat -> code W2 w = 0%Z) ->
+  Permutation s1 (seq 0 k) -> Permutation s2 (seq 0 k) ->
+  NoDup (map fst (gather_list A (chunk_work A work_rows n cs) (draws S draw k s) s1)) ->
+  mapping_result A S draw work_rows cell_order s n p1 c W1 s1 =
+  mapping_result A S draw work_rows cell_order s n p2 c W2 s2 /\
+  mapping_result A S draw work_rows cell_order s n p1 c W1 s1 =
+  final_list A (chunk_work A work_rows n cs) cell_order (draws S draw k s) (seq 0 k).
 Proof. exact same_chunks_same_result. Qed.
 Print Assumptions c04_same_chunks_same_result.
 
-(* statistics: after a clean drain the partial sums are added in dispatch order (`add` is
-   any operation: float addition is not associative), whatever the schedule and the bound *)
+(* when the two effective chunk sizes are equal: e.g. whenever chunk_size * n_processors <= n_rows
+   the requested chunk size is used as given, so every such worker count gives the same chunks *)
+Theorem c04_small_chunk_size_used_as_given : forall n p c : nat,
+  (1 <= p)%nat -> (1 <= c)%nat -> (c * p <= n)%nat -> eff_chunk n p c = c.
+Proof. exact eff_chunk_small. Qed.
+Print Assumptions c04_small_chunk_size_used_as_given.
+
+(* a failing worker: no mapping at all (the inspector raises), whatever sigma *)
+Theorem c04_mapping_result_failed :
+  forall (A S : Type) (draw : S -> Z * S) (work_rows : nat -> nat -> Z -> list (record A))
+         (cell_order : list Z) (s : S) (n p c : nat) (W : world) (sigma : list nat),
+  (1 <= p)%nat ->
+  (exists w, (w < length (chunks n (eff_chunk n p c)))%nat /\ code W w <> 0%Z) ->
+  mapping_result A S draw work_rows cell_order s n p c W sigma = None.
+Proof. exact mapping_result_failed. Qed.
+Print Assumptions c04_mapping_result_failed.
+
+(* statistics.  stats_result folds the partial sums in the order of buffer_path_list, which the
+   model reads off the parent's event log (`starts`: the EStart events -- the path is appended
+   right before p.start(), at dispatch, before any worker finishes).  For EVERY world, bound and
+   inspector that order is 0, 1, ..., m-1 for some m <= k, and 0..k-1 after a clean drain *)
+Theorem c04_stats_buffer_order_is_dispatch_order : forall (variant : bool) (W : world) (n k : nat),
+  let r := if variant then run_pool_dict W n k else run_pool_list W n k in
+  exists m, (m <= k)%nat /\ starts (snd r) = seq 0 m /\ (fst r = POk -> starts (snd r) = seq 0 k).
+Proof. exact starts_are_dispatch_order. Qed.
+Print Assumptions c04_stats_buffer_order_is_dispatch_order.
+
+(* ... hence after a clean drain the partial sums are added in dispatch order (`add` is any
+   operation: float addition is not associative), whatever the schedule and the bound *)
 Theorem c04_stats_merge_order_fixed :
   forall (A : Type) (add : A -> A -> A) (zero : A) (partial : nat -> A) (W1 W2 : world) (n1 n2 k : nat),
   (1 <= n1)%nat -> (1 <= n2)%nat ->
@@ -131,9 +178,10 @@ Proof. exact selection_result_total. Qed.
 Print Assumptions c04_selection_result_total.
 
 (* selection, the scheduler of select_all_markers: the POOL INVARIANT  started \ completed =
-   keys of process_dict.  At every state the loop can hand back -- stop the outer loop after
+   keys of process_dict.  At every state of the outer loop -- stop the outer loop after
    any number `outer` of iterations (the state at that loop head comes back), starve the inner
-   poll loops with any `fuel` (the state right after the start comes back) -- for every world
+   poll loops with any `fuel` (the state right after the start comes back), give the final drain
+   no fuel (the state at the exit of the outer loop comes back) -- for every world
    (schedule), bound and split of the parents: started, completed and the keys of process_dict
    are duplicate-free; a parent is a key of process_dict iff it is started and not completed;
    completed is part of started; no process carries a start time in the future; and only
@@ -141,7 +189,7 @@ Print Assumptions c04_selection_result_total.
    `while ... or not have_chosen_parent` poll cannot spin with nothing running.) *)
 Theorem c04_pool_invariant :
   forall (W : world) (n : nat) (behemoths smaller leafless : list nat) (outer fuel : nat),
-  let s := snd (sel_loop outer fuel W n (length behemoths + length smaller) behemoths smaller leafless sel_init) in
+  let s := snd (sel_loop outer fuel 0 W n (length behemoths + length smaller) behemoths smaller leafless sel_init) in
   (NoDup (ss_started s) /\ NoDup (ss_completed s) /\ NoDup (map fst (ss_running s)) /\
    (forall p, In p (map fst (ss_running s)) <-> In p (ss_started s) /\ ~ In p (ss_completed s)) /\
    (forall p, In p (ss_completed s) -> In p (ss_started s)) /\
@@ -150,9 +198,28 @@ Theorem c04_pool_invariant :
 Proof. exact pool_invariant. Qed.
 Print Assumptions c04_pool_invariant.
 
+(* the final `while len(process_dict) > 0` loop pops workers WITHOUT adding them to
+   completed_parents (selection_pipeline.py; the model follows the code), so once it has run
+   (any fuel `dfuel`) only one direction of the invariant is left: a key of process_dict is started
+   and not completed; the rest stands *)
+Theorem c04_pool_invariant_after_final_drain :
+  forall (W : world) (n : nat) (behemoths smaller leafless : list nat) (outer fuel dfuel : nat),
+  let s := snd (sel_loop outer fuel dfuel W n (length behemoths + length smaller) behemoths smaller leafless sel_init) in
+  (NoDup (ss_started s) /\ NoDup (ss_completed s) /\ NoDup (map fst (ss_running s)) /\
+   (forall p, In p (map fst (ss_running s)) -> In p (ss_started s) /\ ~ In p (ss_completed s)) /\
+   (forall p, In p (ss_completed s) -> In p (ss_started s)) /\
+   (forall j, In j (ss_running s) -> (snd j <= ss_clock s)%nat)) /\
+  (forall p, In p (ss_started s) -> In p (behemoths ++ smaller)).
+Proof. exact pool_invariant_after_drain. Qed.
+Print Assumptions c04_pool_invariant_after_final_drain.
+
 (* ... hence: when no worker fails, any two schedules (worlds W1 W2: durations, hence completion
-   orders; bounds n1 n2) end cleanly with the same set of completed parents, namely all of
-   parent_list -- output_dict has an entry for exactly these, in whatever order *)
+   orders; bounds n1 n2) end cleanly with the same set of STARTED parents, namely all of
+   parent_list, and an empty process_dict (every process was popped, i.e. found with exit code 0
+   -- c14_no_unchecked_pop --, so it had set output_dict[parent]): output_dict has an entry for
+   exactly these, in whatever order.  Stated with started_parents and process_dict because
+   completed_parents is NOT all of parent_list at the end: the final drain does not update it
+   (c04_example_final_drain) *)
 Theorem c04_selection_schedule_independent :
   forall (W1 W2 : world) (n1 n2 : nat) (behemoths smaller leafless : list nat),
   (1 <= n1)%nat -> (1 <= n2)%nat -> NoDup (behemoths ++ smaller) ->
@@ -161,8 +228,9 @@ Theorem c04_selection_schedule_independent :
   let r1 := run_selection_pool W1 n1 behemoths smaller leafless in
   let r2 := run_selection_pool W2 n2 behemoths smaller leafless in
   fst r1 = POk /\ fst r2 = POk /\
-  Permutation (ss_completed (snd r1)) (behemoths ++ smaller) /\
-  Permutation (ss_completed (snd r1)) (ss_completed (snd r2)).
+  Permutation (ss_started (snd r1)) (behemoths ++ smaller) /\
+  Permutation (ss_started (snd r1)) (ss_started (snd r2)) /\
+  ss_running (snd r1) = [] /\ ss_running (snd r2) = [].
 Proof. exact selection_schedule_independent. Qed.
 Print Assumptions c04_selection_schedule_independent.
 
@@ -218,6 +286,44 @@ Example c04_example_chunks :
   chunks 10 4 = [(0, 4); (4, 8); (8, 10)]%nat.
 Proof. vm_compute. repeat split; reflexivity. Qed.
 
+(* the mapping as a whole on 7 rows, chunk_size 2: 2 and 3 workers induce the same effective
+   chunk size 2 (4 chunks); two worlds with different durations, two different append orders;
+   one and the same mapping, each cell with the seed of its chunk (rows 0-1: 11, 2-3: 22, ...);
+   with 4 workers the effective chunk size is still 2, with 7 it is 1 *)
+Example c04_example_mapping_result :
+  let work_rows := fun (r0 r1 : nat) (seed : Z) => map (fun r => (Z.of_nat r, seed)) (seq r0 (r1 - r0)) in
+  let co := [3; 0; 6; 1; 2; 4; 5]%Z in
+  let W1 := {| code := fun _ => 0%Z; dur := fun w => (4 - w)%nat |} in
+  let W2 := {| code := fun _ => 0%Z; dur := fun w => (2 * w)%nat |} in
+  eff_chunk 7 2 2 = 2%nat /\ eff_chunk 7 3 2 = 2%nat /\ eff_chunk 7 7 2 = 1%nat /\
+  length (chunks 7 2) = 4%nat /\
+  Permutation [3; 1; 0; 2]%nat (seq 0 4) /\
+  NoDup (map fst (gather_list Z (chunk_work Z work_rows 7 2) (draws (list Z) list_draw 4 [11; 22; 33; 44; 55]%Z)
+                              [3; 1; 0; 2]%nat)) /\
+  mapping_result Z (list Z) list_draw work_rows co [11; 22; 33; 44; 55]%Z 7 2 2 W1 [3; 1; 0; 2]%nat =
+    Some [(3, 22); (0, 11); (6, 44); (1, 11); (2, 22); (4, 33); (5, 33)]%Z /\
+  mapping_result Z (list Z) list_draw work_rows co [11; 22; 33; 44; 55]%Z 7 3 2 W2 [0; 1; 2; 3]%nat =
+    Some [(3, 22); (0, 11); (6, 44); (1, 11); (2, 22); (4, 33); (5, 33)]%Z /\
+  (* a worker that exits with code 3: no mapping *)
+  mapping_result Z (list Z) list_draw work_rows co [11; 22; 33; 44; 55]%Z 7 3 2
+                 {| code := fun w => if Nat.eqb w 2 then 3%Z else 0%Z; dur := fun _ => 1%nat |} [0; 1; 2; 3]%nat = None.
+Proof.
+  cbv zeta. repeat split; try (vm_compute; reflexivity).
+  - cbn [seq]. apply (Permutation_cons_app [0; 1; 2]%nat [] 3%nat). cbn [app].
+    apply (perm_swap 0%nat 1%nat [2]%nat).
+  - apply (proj1 (znodup_b_spec _)). vm_compute. reflexivity.
+Qed.
+
+(* the merge order of the statistics buffers, read off the log: two slots, three workers, worker
+   1 finishes before worker 0 -- buffer_path_list is 0 1 2 all the same; the fold with a
+   non-commutative operation shows the order *)
+Example c04_example_stats_order :
+  let W := {| code := fun _ => 0%Z; dur := fun w => (5 - 2 * w)%nat |} in
+  snd (run_pool_list W 2 3) = [EStart 0; EStart 1; EPop 1; EStart 2; EPop 0; EPop 2]%nat /\
+  starts (snd (run_pool_list W 2 3)) = [0; 1; 2]%nat /\
+  stats_result (list Z) (@app Z) [] (fun i => [Z.of_nat i]) W 2 3 = Some [0; 1; 2]%Z.
+Proof. vm_compute. repeat split; reflexivity. Qed.
+
 Example c04_example_seeds :
   let W := {| code := fun _ => 0%Z; dur := fun w => (3 - w)%nat |} in
   run_seeds (list Z) list_draw W 2 3 [11; 22; 33; 44]%Z = (POk, [(0%nat, 11%Z); (1%nat, 22%Z); (2%nat, 33%Z)]).
@@ -244,9 +350,18 @@ Qed.
    0 1 2 are started, 1 and 0 completed, 2 is in process_dict (started at poll 8) *)
 Example c04_example_pool_state :
   let W := {| code := fun _ => 0%Z; dur := fun w => (9 - 2 * w)%nat |} in
-  let s := snd (sel_loop 3 20 W 2 5 [0; 3] [1; 2; 4] [4] sel_init)%nat in
+  let s := snd (sel_loop 3 20 20 W 2 5 [0; 3] [1; 2; 4] [4] sel_init)%nat in
   ss_started s = [0; 1; 2]%nat /\ ss_completed s = [1; 0]%nat /\ ss_running s = [(2, 8)]%nat.
 Proof. vm_compute. repeat split; reflexivity. Qed.
+
+(* the final drain does not record what it pops: one parent, one slot beyond it; the worker is
+   still running when the outer loop ends; after the run it is started and popped, and
+   completed_parents is still empty (as in the code) *)
+Example c04_example_final_drain :
+  let W := {| code := fun _ => 0%Z; dur := fun _ => 3%nat |} in
+  let r := run_selection_pool W 2 [] [0%nat] [] in
+  fst r = POk /\ ss_started (snd r) = [0%nat] /\ ss_completed (snd r) = [] /\ ss_running (snd r) = [].
+Proof. exact final_drain_does_not_complete. Qed.
 
 (* one parent whose three markers are listed in two different orders; reference genes
    10 11 12 13, query genes 13 12 11 10: one and the same cache, reference indices 0 1 3 *)
